@@ -45,7 +45,7 @@ KIND = {
     "R14.8": "W",
     "R14.9": "W",
     "R14.10": "W",
-    "R14.11": "W",
+    "R14.11": "W", "R14.12": "W",
     "R06.9": "T",
     "R07.11": "W",
     "R18.12": "S",
